@@ -399,7 +399,7 @@ def run_doc_check(mod, tier):
         f"{n_fail_distinct + f_fail} failing, {len(all_mins)} minimal cores "
         f"({len(unlisted)} unlisted), {time.time() - ev.t0:.0f}s"
     )
-    return 1 if unlisted else 0, {"unlisted": unlisted, "mins": all_mins}
+    return 1 if unlisted else 0, {"unlisted": unlisted, "mins": all_mins, "listed_pass": listed_pass}
 
 
 def replay_doc(mod, path):
